@@ -48,7 +48,7 @@ Proof.
   - exists 0, []. simpl. auto.
   - simpl. destruct (N.eqb c ch_space) eqn:Hc.
     + apply N.eqb_eq in Hc. subst c. destruct IH as (m & r & Hl & Hm & Hr).
-      exists (S m), r. rewrite spaces_S, <- app_comm_cons, <- Hl. fold lead_spaces. rewrite Hm. auto.
+      exists (S m), r. rewrite spaces_S, <- app_comm_cons, <- Hl. rewrite Hm. auto.
     + exists 0, (c :: l). simpl. split; [reflexivity|]. split; [reflexivity|]. right. eauto.
 Qed.
 
@@ -129,3 +129,277 @@ Definition parse_sh (s : str) : list shape :=
   | Some [ch] => rev ch
   | _ => []
   end.
+
+(* ---------- (1) the span-level spec and the shape-level spec agree ---------- *)
+
+Definition frames_sh (s : str) (st : list frame) : list sframe :=
+  map (fun f : frame => map (shape_of s) (snd f)) st.
+
+Lemma lead_spaces_snoc_le l c : N.eqb c ch_space = false -> lead_spaces (l ++ [c]) <= length l.
+Proof.
+  intros Hc.
+  assert (Hcons : forall x l0, lead_spaces (x :: l0) = if N.eqb x ch_space then S (lead_spaces l0) else 0)
+    by reflexivity.
+  induction l as [|x l IH].
+  - simpl. rewrite Hc. lia.
+  - rewrite <- app_comm_cons, Hcons. destruct (N.eqb x ch_space); cbn [length]; lia.
+Qed.
+
+Lemma trim_right_len_pos c r : N.eqb c ch_space = false -> 0 < trim_right_len (c :: r).
+Proof.
+  intros Hc. rewrite trim_right_len_eq. simpl rev.
+  pose proof (lead_spaces_snoc_le (rev r) c Hc) as H. rewrite rev_length in H.
+  cbn [length]. lia.
+Qed.
+
+Lemma trim_right_len_le l : trim_right_len l <= length l.
+Proof. rewrite trim_right_len_eq. lia. Qed.
+
+Lemma push_child_sh s n st :
+  frames_sh s (push_child n st) = push_sh (shape_of s n) (frames_sh s st).
+Proof. destruct st as [|[a ch] rest]; reflexivity. Qed.
+
+Lemma sub_prefix_mid (p x q : str) L :
+  L <= length x -> sub (p ++ x ++ q) (length p) (length p + L) = firstn L x.
+Proof.
+  intros HL. unfold sub. rewrite skipn_app, skipn_all, Nat.sub_diag. cbn [skipn app].
+  replace (length p + L - length p) with L by lia.
+  rewrite firstn_app. replace (L - length x) with 0 by lia. simpl. apply app_nil_r.
+Qed.
+
+Lemma flush_agree s pre0 run cs st :
+  s = pre0 ++ rev run ++ cs ->
+  frames_sh s (flush_run (length pre0) run st) = flush_sh run (frames_sh s st).
+Proof.
+  intros Hs. unfold flush_run, flush_sh, trim_text.
+  rewrite (trim_left_offset (rev run) (length pre0)).
+  destruct (trim_left (rev run) 0) as [a0 r0] eqn:E. cbn [fst snd].
+  destruct (trim_left_spec _ _ _ _ E) as (k & Hl & Ha & Hr). simpl in Ha. subst a0.
+  destruct Hr as [-> | (c & r & -> & Hc)].
+  - destruct (trim_right_len []); reflexivity.
+  - pose proof (trim_right_len_pos c r Hc) as Hpos. pose proof (trim_right_len_le (c :: r)) as Hle.
+    set (L := trim_right_len (c :: r)) in *.
+    destruct (firstn L (c :: r)) eqn:Ef.
+    + destruct L; [lia | discriminate].
+    + rewrite push_child_sh. f_equal. cbn [shape_of]. f_equal. rewrite <- Ef.
+      rewrite Hs, Hl.
+      replace (length pre0 + k) with (length (pre0 ++ spaces k)) by (rewrite app_length, spaces_length; reflexivity).
+      rewrite <- app_assoc, (app_assoc pre0). apply sub_prefix_mid. exact Hle.
+Qed.
+
+Lemma sim_sh s cs : forall pre0 run st,
+  s = pre0 ++ rev run ++ cs ->
+  option_map (frames_sh s) (spec_loop cs (length pre0 + length run) (length pre0) run st)
+  = spec_loop_sh cs run (frames_sh s st).
+Proof.
+  induction cs as [|c cs IH]; intros pre0 run st Hs.
+  - cbn [spec_loop spec_loop_sh option_map]. f_equal. apply (flush_agree s pre0 run []). exact Hs.
+  - cbn [spec_loop spec_loop_sh].
+    pose proof (flush_agree s pre0 run (c :: cs) st Hs) as Hfl.
+    assert (Hs' : s = (pre0 ++ rev run ++ [c]) ++ rev [] ++ cs).
+    { rewrite Hs. simpl. rewrite <- !app_assoc. reflexivity. }
+    assert (Hlen : S (length pre0 + length run) = length (pre0 ++ rev run ++ [c]) + length (@nil N)).
+    { rewrite !app_length, rev_length. simpl. lia. }
+    assert (Hlen2 : S (length pre0 + length run) = length (pre0 ++ rev run ++ [c])).
+    { rewrite !app_length, rev_length. simpl. lia. }
+    destruct (is_delim c) eqn:Hd.
+    + rewrite <- Hfl.
+      destruct (N.eqb c ch_open) eqn:Ho.
+      * rewrite Hlen at 1. rewrite Hlen2 at 1.
+        rewrite (IH _ [] _ Hs'). reflexivity.
+      * destruct (N.eqb c ch_close) eqn:Hc.
+        -- destruct (flush_run (length pre0) run st) as [|[ga gch] [|[pa pch] rest]]; try reflexivity.
+           rewrite Hlen at 1. rewrite Hlen2 at 1. rewrite (IH _ [] _ Hs').
+           cbn [frames_sh map snd shape_of]. rewrite map_rev. reflexivity.
+        -- rewrite Hlen at 1. rewrite Hlen2 at 1. rewrite (IH _ [] _ Hs'). reflexivity.
+    + assert (Hs2 : s = pre0 ++ rev (c :: run) ++ cs).
+      { rewrite Hs. simpl. rewrite <- !app_assoc. reflexivity. }
+      replace (S (length pre0 + length run)) with (length pre0 + length (c :: run)) by (simpl; lia).
+      apply (IH pre0 (c :: run) st Hs2).
+Qed.
+
+Theorem parse_sh_spec (s : str) : parse_sh s = map (shape_of s) (spec_parse s).
+Proof.
+  unfold parse_sh, spec_parse.
+  pose proof (sim_sh s s [] [] [(0, [])]) as H. simpl in H. rewrite <- H by reflexivity.
+  destruct (spec_loop s 0 0 [] [(0, [])]) as [[|[a ch] [|f2 rest]]|]; try reflexivity.
+  simpl. rewrite map_rev. reflexivity.
+Qed.
+
+(* ---------- (3) printing is a function of the shapes ---------- *)
+
+Fixpoint pr1 (x : shape) : str :=
+  match x with
+  | STag t => t
+  | SGroup ch => [ch_open] ++ join [ch_comma] (map pr1 ch) ++ [ch_close]
+  end.
+Definition pr_list (l : list shape) : str := join [ch_comma] (map pr1 l).
+
+Lemma print_node_pr s : forall n, print_node s n = pr1 (shape_of s n).
+Proof.
+  fix IH 1. intros [a b | a b ch]; [reflexivity|].
+  cbn [print_node shape_of pr1]. f_equal. f_equal. f_equal. rewrite map_map.
+  induction ch as [|x ch IHch]; [reflexivity|]. cbn [map]. rewrite IH, IHch. reflexivity.
+Qed.
+
+Lemma print_forest_pr s f : print_forest s f = pr_list (map (shape_of s) f).
+Proof.
+  unfold print_forest, pr_list. f_equal. rewrite map_map. apply map_ext. apply print_node_pr.
+Qed.
+
+(* ---------- (4) shapes produced by the specification are well formed ---------- *)
+
+Inductive wf : shape -> Prop :=
+| wf_tag t : tagbody t -> wf (STag t)
+| wf_group ch : Forall wf ch -> wf (SGroup ch).
+
+Lemma flush_sh_nil st : flush_sh [] st = st.
+Proof. reflexivity. Qed.
+
+Lemma flush_sh_wf run st :
+  Forall (fun c => is_delim c = false) run -> Forall (Forall wf) st -> Forall (Forall wf) (flush_sh run st).
+Proof.
+  intros Hr Hst. unfold flush_sh.
+  assert (Hrr : Forall (fun c => is_delim c = false) (rev run)).
+  { apply Forall_forall. intros x Hx. apply in_rev in Hx. revert x Hx. apply Forall_forall. exact Hr. }
+  destruct (trim_text_tagbody (rev run) Hrr) as [E|Hb].
+  - rewrite E. exact Hst.
+  - destruct (trim_text (rev run)) eqn:E; [exact Hst|].
+    destruct st as [|top rest]; [constructor|]. inversion Hst; subst.
+    constructor; [|assumption]. constructor; [|assumption]. constructor. exact Hb.
+Qed.
+
+Lemma spec_loop_sh_wf cs : forall run st st',
+  Forall (fun c => is_delim c = false) run -> Forall (Forall wf) st ->
+  spec_loop_sh cs run st = Some st' -> Forall (Forall wf) st'.
+Proof.
+  induction cs as [|c cs IH]; intros run st st' Hr Hst H; cbn [spec_loop_sh] in H.
+  - inversion H; subst. apply flush_sh_wf; assumption.
+  - pose proof (flush_sh_wf run st Hr Hst) as Hf.
+    destruct (is_delim c) eqn:Hd.
+    + destruct (N.eqb c ch_open).
+      * eapply IH; [constructor | | exact H]. constructor; [constructor | exact Hf].
+      * destruct (N.eqb c ch_close).
+        -- destruct (flush_sh run st) as [|g [|p rest]]; try discriminate.
+           inversion Hf as [|? ? Hg Hf']; subst. inversion Hf' as [|? ? Hp Hrest]; subst.
+           eapply IH; [constructor | | exact H].
+           constructor; [|exact Hrest]. constructor; [|exact Hp]. constructor.
+           apply Forall_forall. intros x Hx. apply in_rev in Hx. revert x Hx. apply Forall_forall. exact Hg.
+        -- eapply IH; [constructor | exact Hf | exact H].
+    + eapply IH; [| exact Hst | exact H]. constructor; assumption.
+Qed.
+
+Theorem parse_sh_wf (s : str) : Forall wf (parse_sh s).
+Proof.
+  unfold parse_sh. destruct (spec_loop_sh s [] [[]]) as [[|ch [|f2 rest]]|] eqn:E; try constructor.
+  assert (H : Forall (Forall wf) [ch]).
+  { eapply spec_loop_sh_wf; [constructor | | exact E]. constructor; constructor. }
+  inversion H; subst. apply Forall_forall. intros x Hx. apply in_rev in Hx. revert x Hx.
+  apply Forall_forall. assumption.
+Qed.
+
+(* ---------- (2) parsing a printed well-formed forest gives it back ---------- *)
+
+Lemma shape_ind2 (P : shape -> Prop) :
+  (forall t, P (STag t)) -> (forall ch, Forall P ch -> P (SGroup ch)) -> forall x, P x.
+Proof.
+  intros Ht Hg. fix IH 1. intros [t|ch]; [apply Ht|]. apply Hg.
+  induction ch as [|y ch IHch]; constructor; [apply IH | exact IHch].
+Qed.
+
+Definition delim_or_nil (rest : str) : Prop :=
+  rest = [] \/ exists d r, rest = d :: r /\ is_delim d = true.
+
+Lemma spec_loop_sh_nodelim l : forall rest run st,
+  Forall (fun c => is_delim c = false) l ->
+  spec_loop_sh (l ++ rest) run st = spec_loop_sh rest (rev l ++ run) st.
+Proof.
+  induction l as [|c l IH]; intros rest run st Hf; [reflexivity|].
+  inversion Hf as [|? ? Hc Hl]; subst. simpl. rewrite Hc, IH by exact Hl.
+  rewrite <- app_assoc. reflexivity.
+Qed.
+
+Lemma flush_transfer rest run st :
+  delim_or_nil rest -> spec_loop_sh rest run st = spec_loop_sh rest [] (flush_sh run st).
+Proof.
+  intros [-> | (d & r & -> & Hd)].
+  - reflexivity.
+  - cbn [spec_loop_sh]. rewrite Hd, flush_sh_nil. reflexivity.
+Qed.
+
+Definition item_ok (x : shape) : Prop :=
+  wf x -> forall rest top st, delim_or_nil rest ->
+  spec_loop_sh (pr1 x ++ rest) [] (top :: st) = spec_loop_sh rest [] ((x :: top) :: st).
+
+Lemma list_ok l : Forall item_ok l -> Forall wf l -> forall rest top st, delim_or_nil rest ->
+  spec_loop_sh (pr_list l ++ rest) [] (top :: st) = spec_loop_sh rest [] ((rev l ++ top) :: st).
+Proof.
+  induction l as [|x l IH]; intros Hok Hwf rest top st Hrest; [reflexivity|].
+  inversion Hok as [|? ? Hx Hok']; subst. inversion Hwf as [|? ? Hwx Hwf']; subst.
+  destruct l as [|y l'].
+  - unfold pr_list. cbn [map join]. rewrite (Hx Hwx rest top st Hrest). reflexivity.
+  - assert (E : pr_list (x :: y :: l') = pr1 x ++ ch_comma :: pr_list (y :: l')) by reflexivity.
+    rewrite E, <- app_assoc, <- app_comm_cons.
+    rewrite (Hx Hwx).
+    2: { right. exists ch_comma, (pr_list (y :: l') ++ rest). auto. }
+    cbn [spec_loop_sh]. change (is_delim ch_comma) with true. cbv iota.
+    change (N.eqb ch_comma ch_open) with false. change (N.eqb ch_comma ch_close) with false. cbv iota.
+    rewrite flush_sh_nil.
+    transitivity (spec_loop_sh rest [] ((rev (y :: l') ++ x :: top) :: st));
+      [apply (IH Hok' Hwf'); exact Hrest|].
+    cbn [rev]. rewrite <- !app_assoc. reflexivity.
+Qed.
+
+Lemma item_ok_all : forall x, item_ok x.
+Proof.
+  apply shape_ind2.
+  - intros t Hw rest top st Hrest. inversion Hw as [? Hb|]; subst. cbn [pr1].
+    destruct Hb as (Hb1 & Hb2 & Hnd).
+    rewrite spec_loop_sh_nodelim by exact Hnd. rewrite app_nil_r.
+    rewrite flush_transfer by exact Hrest. unfold flush_sh. rewrite rev_involutive.
+    rewrite trim_text_body by (repeat split; assumption).
+    destruct t as [|c t']; [destruct Hb1 as (c & r & E & _); discriminate | reflexivity].
+  - intros ch Hall Hw rest top st Hrest. inversion Hw as [|? Hwch]; subst. cbn [pr1].
+    rewrite <- !app_assoc. cbn [app spec_loop_sh]. change (is_delim ch_open) with true. cbv iota.
+    change (N.eqb ch_open ch_open) with true. cbv iota. rewrite flush_sh_nil.
+    fold (pr_list ch).
+    rewrite (list_ok ch Hall Hwch).
+    2: { right. exists ch_close, rest. auto. }
+    cbn [spec_loop_sh]. change (is_delim ch_close) with true. cbv iota.
+    change (N.eqb ch_close ch_open) with false. change (N.eqb ch_close ch_close) with true. cbv iota.
+    rewrite flush_sh_nil, app_nil_r, rev_involutive. reflexivity.
+Qed.
+
+Theorem parse_pr (l : list shape) : Forall wf l -> parse_sh (pr_list l) = l.
+Proof.
+  intros Hw.
+  assert (Hall : Forall item_ok l) by (apply Forall_forall; intros x _; apply item_ok_all).
+  assert (H : spec_loop_sh (pr_list l) [] [[]] = Some [rev l]).
+  { rewrite <- (app_nil_r (pr_list l)).
+    etransitivity; [apply (list_ok l Hall Hw [] [] []); left; reflexivity|].
+    cbn [spec_loop_sh]. rewrite flush_sh_nil, app_nil_r. reflexivity. }
+  exact (eq_trans (f_equal (fun o : option (list sframe) =>
+                              match o with Some [ch] => rev ch | _ => [] end) H)
+                  (rev_involutive l)).
+Qed.
+
+(* ---------- the property clause, for ALL strings ---------- *)
+
+Theorem print_reparse (s : str) :
+  let f := spec_parse s in
+  let p := print_forest s f in
+  map (shape_of p) (spec_parse p) = map (shape_of s) f.
+Proof.
+  cbv zeta. rewrite <- !parse_sh_spec. rewrite print_forest_pr, <- parse_sh_spec.
+  apply parse_pr. apply parse_sh_wf.
+Qed.
+
+(* in terms of the modelled constructor *)
+Theorem init_print_reparse (s : str) :
+  forall f, hedstring_init s = Ok f ->
+  exists f', hedstring_init (print_forest s f) = Ok f' /\
+             map (shape_of (print_forest s f)) f' = map (shape_of s) f.
+Proof.
+  intros f Hf. rewrite init_refines_spec in Hf. inversion Hf; subst f.
+  exists (spec_parse (print_forest s (spec_parse s))). split; [apply init_refines_spec | apply print_reparse].
+Qed.
